@@ -25,8 +25,9 @@ def sh(cmd, **kw):
 
 def demo(src, tag):
     exe = "/tmp/seed_demo_%s_%d" % (tag, os.getpid())
-    r = sh(["g++", "-std=c++17", "-O1", "-g", "-fsanitize=address,undefined", "-fno-sanitize-recover=all",
-            "-I/repo/Include", src, "-o", exe, "-lpthread"])
+    extra = ["-DQENTEM_AUTO_ESCAPE_HTML=0"] if "-DQENTEM_AUTO_ESCAPE_HTML=0" in open(src).read() else []
+    r = sh(["g++", "-std=c++17", "-O1", "-g", "-fsanitize=address,undefined", "-fno-sanitize-recover=all"] + extra +
+           ["-I%s/Include" % REPO, src, "-o", exe, "-lpthread"])
     if r.returncode != 0:
         return None, "compile failed: " + r.stdout[-1500:]
     try:
@@ -38,22 +39,44 @@ def demo(src, tag):
     return rc, out
 
 
+REPO = "/repo"
+
+
 def main():
-    sd, name, pids = sys.argv[1], sys.argv[2], sys.argv[3:]
+    global REPO
+    args = sys.argv[1:]
+    scratch = False
+    if args[0] == "--scratch":
+        # builder agents are running checks against /repo: use a scratch worktree of /repo's HEAD instead
+        scratch = True
+        args = args[1:]
+        REPO = "/tmp/seedrepo_%d" % os.getpid()
+        sh("git -C /repo worktree add -q --detach %s HEAD" % REPO)
+    try:
+        return main2(args, scratch)
+    finally:
+        if scratch:
+            sh("git -C /repo worktree remove --force %s" % REPO)
+            shutil.rmtree("/tmp/qentem_suite_build_seed", ignore_errors=True)
+
+
+def main2(args, scratch):
+    sd, name, pids = args[0], args[1], args[2:]
     patch = os.path.join(sd, "patch.diff")
     dsrc = os.path.join(sd, "demo.cpp")
     meta = {"name": name, "breaks_property": pids[0], "checks_run": pids, "ran": []}
-    assert sh("git -C /repo status --porcelain --untracked-files=no").stdout.strip() == "", "/repo not clean"
+    assert sh("git -C %s status --porcelain --untracked-files=no" % REPO).stdout.strip() == "", "repo not clean"
+    meta["applied_to"] = REPO if scratch else "/repo itself"
     rc0, out0 = demo(dsrc, "clean")
     meta["demo_on_unchanged_tree"] = {"rc": rc0, "tail": out0[-300:]}
-    r = sh("git -C /repo apply --check " + patch)
+    r = sh("git -C %s apply --check %s" % (REPO, patch))
     if r.returncode != 0:
         meta["error"] = "patch does not apply: " + r.stdout[-500:]
         print(json.dumps(meta, indent=1))
         return 2
-    sh("git -C /repo apply " + patch)
+    sh("git -C %s apply %s" % (REPO, patch))
     try:
-        s = sh(os.path.join(V, "tools", "run_suite.sh"))
+        s = sh(os.path.join(V, "tools", "run_suite.sh"), env=dict(os.environ, SUITE_SRC=REPO, SUITE_BUILD_DIR="/tmp/qentem_suite_build_seed" if scratch else "/tmp/qentem_suite_build"))
         meta["suite_with_change"] = s.stdout.strip().split("\n")[-3:]
         suite_ok = "100% tests passed" in s.stdout
         rc1, out1 = demo(dsrc, "mut")
@@ -62,7 +85,7 @@ def main():
         meta["confirmed"] = confirmed
         results = {}
         for pid in pids:
-            r = sh(["python3", os.path.join(V, "check.py"), pid, "--tier", "quick"], cwd=V, timeout=3600)
+            r = sh(["python3", os.path.join(V, "check.py"), pid, "--tier", "quick"], cwd=V, timeout=3600, env=dict(os.environ, QENTEM_REPO=REPO))
             viol = [l for l in r.stdout.split("\n") if l.startswith("VIOLATION")]
             results[pid] = {"exit": r.returncode, "violation_lines": viol,
                             "failing_inputs": [l.strip()[:300] for l in r.stdout.split("\n") if "failing input" in l or "broken" in l][:4]}
@@ -71,7 +94,7 @@ def main():
         meta["caught_by"] = [p for p, v in results.items() if v["exit"] == 1 and v["violation_lines"]]
         meta["caught_with_failing_input"] = [p for p, v in results.items() if v["violation_lines"] and "no-failing-input-found" not in v["violation_lines"][0]]
     finally:
-        sh("git -C /repo checkout -- .")
+        sh("git -C %s checkout -- ." % REPO)
     if os.path.exists(os.path.join(sd, "notes.txt")):
         meta["needs_to_manifest"] = open(os.path.join(sd, "notes.txt")).read()[:1500]
     out = os.path.join(V, "seeded", name)
